@@ -129,9 +129,11 @@ ASG = {"V_U8_a": ("V_U8", 5, 400), "V_A3_a": ("V_A3", 9, 600), "STR8_a": ("STR8"
 ASG_QUICK = ["V_U8_a", "V_A3_a", "U_S1_a", "U_E1_a", "U_E2_a", "U_E3_a", "U_E5_a", "U_E6_a", "U_PE_a"]
 
 
-def asg(what):
+def asg(what, exclude=()):
     out = []
     for m, (sh, n, t) in ASG.items():
+        if m in exclude:
+            continue
         out.append(H("em::%s::assign" % m, t, 12, "every valid target image <= %d bytes x every replacement value (all variants, fill 0..3); %s" % (n, SHAPE_DOC[sh]),
                      what, tier="quick" if m in ASG_QUICK else "thorough"))
     return out
@@ -258,7 +260,9 @@ prop("C10", "receiver fed arbitrary bytes",
 # ---------------------------------------------------------------- histories by one step
 VSTEP = {"V_U8_st": ("FlatVec<u8,u8>", 7, 900), "V_U16_st": ("FlatVec<u16,u8>", 9, 1200), "V_U8L32_st": ("FlatVec<u8,u32>", 10, 1200),
          "V_A3_st": ("FlatVec<[u8;3],u16>", 10, 1800), "V_P_st": ("FlatVec<le::U16,le::U16>", 8, 1200)}
-XSTEP = {"X_U8_st4": ("FlexVec<u8,u8>", 4, 800), "X_U8_st": ("FlexVec<u8,u8>", 5, 2700), "X_U8_st6": ("FlexVec<u8,u8>", 6, 3600), "X_U16_st": ("FlexVec<u16,u16>", 6, 3600), "X_P_st": ("FlexVec<le::U16,le::U16>", 6, 3600)}
+# (FlexVec<u16,u16> / FlexVec<le::U16,le::U16> step harnesses exist in the crate but are not registered: at the 6 bytes
+# that still finish, a second 4-byte item never fits, so the interesting cases are unreachable)
+XSTEP = {"X_U8_st4": ("FlexVec<u8,u8>", 4, 800), "X_U8_st": ("FlexVec<u8,u8>", 5, 2700), "X_U8_st6": ("FlexVec<u8,u8>", 6, 3600)}
 XOPS = ["push", "push_default", "pop", "truncate", "clear", "edit", "push_failing"]
 XVOPS = ["push", "pop", "truncate", "edit"]
 STEP_ASSUME = ["a history is covered by one step from an arbitrary valid image (every validating image is a reachable state and every reachable state must validate, which each step re-asserts); the composition over steps is a paper argument"]
@@ -345,7 +349,7 @@ prop("C14", "in-place mutation stays inside the value",
      "Every constructing and mutating harness keeps the slice inside a larger symbolic array and asserts that all bytes outside the slice are unchanged (canaries), for successful and failing operations alike; CBMC's pointer checks flag writes past the enclosing object. Sibling-field preservation follows from the content equalities asserted after each step.",
      ["buffers longer than the per-shape bound", "sequences are covered one operation at a time from an arbitrary valid state"],
      em("emplace", "canaries outside [k, k+n) unchanged after new_in_place (Ok or Err)", quick=["V_U8", "V_U16", "V_U8L32", "U_S1", "U_E1", "X_U8", "V_A3", "U_E3"], thorough=["U_S4", "X_V", "X_U16", "V_SB"])
-     + asg("canaries outside the target unchanged after assign_in_place (Ok or Err)")
+     + asg("canaries outside the target unchanged after assign_in_place (Ok or Err)", exclude=("U_E6_a",))
      + vsteps("bytes after the vector's slice unchanged after every FlatVec operation (element more aligned than the length type included)", quick=("V_U16_st",))
      + xsteps("bytes after the vector's slice unchanged after FlexVec push", ops=["push"]))
 
